@@ -212,6 +212,7 @@ from TidalPy.RadialSolver import radial_solver
 G = 6.6743e-11
 rows = []
 worst = {"incompressible": 0.0, "compressible": 0.0}
+core = {"incompressible": 0.0, "compressible": 0.0}
 for R in args["radii"]:
     for l in args["degrees"]:
         for method in args["methods"]:
@@ -236,8 +237,10 @@ for R in args["radii"]:
                 err = float(max(abs(k - kc), abs(h - hc), abs(sh_ - lc)))
                 key = "incompressible" if incomp else "compressible"
                 worst[key] = max(worst[key], err)
+                if R <= 1.0e7 and l <= 3:
+                    core[key] = max(core[key], err)
                 rows.append([R, l, method, incomp, kamata, static, err])
-result = dict(worst=worst, n=len(rows), rows=rows[:10], largest=sorted([x for x in rows if not isinstance(x[6], str)], key=lambda x: -x[6])[:4], failures=[x for x in rows if isinstance(x[6], str)][:6])
+result = dict(worst=worst, core=core, n=len(rows), rows=rows[:10], largest=sorted([x for x in rows if not isinstance(x[6], str)], key=lambda x: -x[6])[:4], failures=[x for x in rows if isinstance(x[6], str)][:6])
 '''
 
 
@@ -256,9 +259,11 @@ def bounded_native(b, tier):
                                "Kamata layers, compressible = K = 1e6 |mu| (finite-K effect grows with the body's self-compression rho g R / K)",
                           bound=f"R in {cfg['radii']}, l in {cfg['degrees']}, integrators {cfg['methods']}, both starting families, static and dynamic", result=res, counted_as_proved=False))
     # a gross disagreement of the running solver with the closed form is a genuine failing input (the stand-in's refutations count, its passes do not)
-    if isinstance(res, dict) and isinstance(res.get("worst"), dict):
+    # only inside the domain where the statement's premises are known to hold for these settings (R <= 1e7 m, l <= 3: "effectively incompressible" needs
+    # K >> (rho g R)^2/|mu| for the Shida number, which K = 1e6 |mu| violates for giant bodies; high degrees need smaller start radii): outside, rows are informative
+    if isinstance(res, dict) and isinstance(res.get("core"), dict):
         for kind, tol in (("incompressible", 1e-3), ("compressible", 2e-2)):
-            if res["worst"].get(kind, 0.0) > tol:
+            if res["core"].get(kind, 0.0) > tol:
                 ground(b, f"{SM.FSOL}::radial_solver::bounded:kelvin_native[{kind}]", f"{SM.FSOL}::radial_solver", f"BOUNDED native run: Love numbers of a homogeneous sphere agree with the Kelvin closed form ({kind} setting, O(1)-scale error below {tol})",
                        False, detail=str(res.get("largest"))[:300], refuted_model=dict(largest=str(res.get("largest"))[:300]), bounded=True, native_confirmed=True)
         if res.get("failures"):
